@@ -174,6 +174,8 @@ pub enum Step {
     JoinAsk { slot_a: u8, msg_a: MsgSpec, slot_b: u8, msg_b: MsgSpec },
     /// an ask joined with a branch that yields once and then panics (the ask future is destroyed by unwinding)
     JoinAskPanic { slot: u8, msg: MsgSpec },
+    /// the executor is kept busy for this long: the clock moves on although other tasks are ready to run
+    Stall(u32),
     /// the ask is made here (through an erased handler the request future is created here), but it is a detached
     /// task - not the running hook - that waits for the reply
     SpawnAsk { slot: u8, msg: MsgSpec },
